@@ -5,6 +5,7 @@ import (
 	"fmt"
 	"os"
 	"sort"
+	"strings"
 	"sync/atomic"
 	"testing"
 
@@ -12,7 +13,7 @@ import (
 	"verif/internal/ev"
 )
 
-var exprCount atomic.Int64
+var exprCount, surveySeq atomic.Int64
 
 // runRung is one rung of the ladder: a generated sample set, 10..24 generated expressions of the rung with generated
 // evaluation times; every expression is evaluated as a range query and as the instant queries at its steps by the
@@ -32,7 +33,7 @@ func runRung(t *testing.T, campaign string, rung int) {
 			instantOnly := g.feats["sel:matrix_instant"]
 			start, end, step := genTimes(t, &d, info, instantOnly, g.feat)
 			q := QueryJ{Expr: e, Start: start, End: end, Step: step}
-			if k := knownClass(&d, q, g); k != "" {
+			if k := knownClass(&d, q); k != "" {
 				c.Excluded(k)
 				continue
 			}
@@ -77,7 +78,10 @@ func runRung(t *testing.T, campaign string, rung int) {
 		if survey {
 			for _, v := range vs {
 				b, _ := json.Marshal(&CaseJ{Kind: "promql", Data: d, Queries: []QueryJ{v.Query}})
-				fmt.Printf("SURVEY %s\nSURVEYCASE %s\n", v.Msg, b)
+				n := surveySeq.Add(1)
+				f := fmt.Sprintf("%s/%s-%d-%d.json", os.Getenv("C18_SURVEY"), campaign, os.Getpid(), n)
+				_ = os.WriteFile(f, b, 0o644)
+				fmt.Printf("SURVEY %s %.700s\n", f, strings.ReplaceAll(v.Msg, "\n", " | "))
 			}
 			return
 		}
